@@ -248,8 +248,12 @@ def worker_main(argv):
     envs = [(c, d) for c in spec["clocks"] for d in spec["dates"]]
     nruns = 0
     # harness self-check: same scenario, same environment, twice -> identical
-    a = run_scenario(scs[my[0]], cfgs, scratch)
-    b = run_scenario(scs[my[0]], cfgs, scratch)
+    # (under a scripted clock and date, so that a genuine wall-clock dependence of the engine is reported as a
+    #  property violation by the comparison below, not as a harness problem)
+    with Env("frozen", "2020"):
+        a = run_scenario(scs[my[0]], cfgs, scratch)
+    with Env("frozen", "2020"):
+        b = run_scenario(scs[my[0]], cfgs, scratch)
     if a != b:
         json.dump({"harness_error": "nondeterministic harness on scenario %d" % my[0]}, open(out_path, "w"))
         return 0
